@@ -94,6 +94,8 @@ func cmdCases(args []string) {
 	switch *kind {
 	case "cacheability":
 		obs, err = cases.Cacheability(w, raws)
+	case "lru":
+		obs, err = cases.LRU(w, raws)
 	default:
 		fatal("unknown kind %s", *kind)
 	}
